@@ -40,3 +40,22 @@ PROPS = {
     'C18': dict(engines=['strings', 'frameops'], translator_keys=['internal/strings', 'internal/scolumn', 'internal/ecolumn'], trusted_base=STD + ['Go regexp is an oracle', 'unicode.ToUpper is an arbitrary rune map'], assumptions=[]),
     'C19': dict(engines=['sql'], translator_keys=[], uses_gen=False, trusted_base=STD + ['database/sql default value conversion'], assumptions=[]),
 }
+
+# Source-shape tie: for files that several properties are anchored in, the functions (regular expression on
+# "Receiver.Name" / "Name") whose fingerprint a property watches; every other anchor file is watched completely.
+# Functions that no model covers are excluded everywhere.
+SHARED_FUNCS = {
+    'qframe.go': {
+        'C02': r'QFrame\.(Filter|filter)', 'C03': r'QFrame\.Sort', 'C04': r'QFrame\.GroupBy', 'C05': r'QFrame\.Distinct',
+        'C06': r'QFrame\.(Apply|apply0|apply1|apply2|FilteredApply|WithRowNums|setColumn)',
+        'C07': r'QFrame\.(Eval|setColumn|Drop|Select|Copy)',
+        'C08': r'(New|createColumn|QFrame\.(Select|Drop|Slice|Copy|setColumn|checkColumns|Contains))',
+        'C09': r'QFrame\.(Len|Equals|ToCSV|ToJSON|String|ColumnNames|ColumnTypes|ColumnTypeMap|.*View)',
+        'C12': r'ReadCSV', 'C13': r'(ReadCSV|QFrame\.ToCSV)', 'C14': r'(ReadJSON|QFrame\.ToJSON)',
+        'C15': r'(ReadCSV|ReadJSON|ReadSQL|QFrame\.(ToCSV|ToJSON|ToSQL))', 'C17': r'(New|createColumn|ReadCSV|ReadJSON)',
+        'C19': r'(ReadSQL|QFrame\.ToSQL)',
+    },
+    'internal/template/column.go': {'C03': r'.*(Compare|Comparable).*', 'C04': r'.*(Aggregate|subsetWithBuf|Subset|Hash|Comparable).*',
+                                    'C06': r'.*(Apply1|Apply2|New|NewConst).*', 'C08': r'.*(New|NewConst|Subset).*', 'C09': r'.*(Equals|View|StringAt|AppendByteStringAt|Len).*'},
+}
+UNMODELLED_FUNCS = [r'QFrame\.(ByteSize|Rolling|Append|Doc|functionType)', r'Doc', r'.*\.ByteSize', r'.*\.FunctionType', r'.*\.DataType', r'.*\.Append']
